@@ -40,7 +40,7 @@ ASSUMPTIONS = [
     "datagrams reach the client's queue already unwrapped from <PACKT> framing (the packet consumer is covered by C07/C04)",
     "asyncio interleaves only at suspending awaits; one client task",
 ]
-SITES = ["xfer.*", "ff.*", "thr.*", "thr2.*"]
+SITES = ["xfer.*", "ff.*", "thr.*", "thr2.*", "thr2s*"]
 PARMS = (DEST[0], DEST[1], SRC_ID, CLI_ID)
 
 
@@ -279,9 +279,47 @@ def threaded_two_transfers(sx):
         _oracle(sx, bool(ok), S, C, st.status_block, startB, lengthB, "thr2")
 
 
+def threaded_two_structures(sx):
+    """two threaded structures (two spas in one process) transfer at the same time, their segment chains arriving
+    interleaved: each ends up with its own spa's bytes"""
+    from sx.vloop import VLoop, patched_time
+    from geckolib.driver import GeckoStructure, GeckoStatusBlockProtocolHandler
+    loop = VLoop()
+    with patched_time(loop):
+        S = [sx.block("spa_block_a", 1024), sx.block("spa_block_b", 1024)]
+        C = [sx.block("client_block_a", 1024), sx.block("client_block_b", 1024)]
+        sims = [_mk_sim(S[0]), _mk_sim(S[1])]
+        sts = [GeckoStructure(None), GeckoStructure(None)]
+        start = [sx.int_("start_a", 0, 900), sx.int_("start_b", 0, 900)]
+        length = [100, 90]
+        reqs, chains = [], []
+        for k in range(2):
+            sts[k].set_status_block(C[k])
+            sock = _Sock()
+            r = GeckoStatusBlockProtocolHandler.request(1 + k, start[k], length[k], parms=PARMS)
+            r._timeout_in_seconds, r._retry_count = 0.25, 1
+            sts[k].retry_request(sock, r, PARMS)
+            h, dest = sock.sends[0]
+            h.last_destination = dest
+            reqs.append(r)
+            chains.append(_serve(sims[k], h.send_bytes))
+        # strict alternation, or all of one spa's segments between two of the other's
+        order = [[(0, 0), (1, 0), (0, 1), (1, 1), (0, 2), (1, 2)], [(0, 0), (1, 0), (1, 1), (1, 2), (0, 1), (0, 2)],
+                 [(1, 0), (0, 0), (0, 1), (0, 2), (1, 1), (1, 2)]][sx.choice("interleaving", 3)]
+        for k, i in order:
+            if not reqs[k].should_remove_handler:
+                reqs[k].handle(chains[k][i], PARMS)
+                reqs[k].handled(PARMS)
+        for k in range(2):
+            ok = reqs[k].should_remove_handler and sts[k].had_at_least_one_block
+            sx.check(ok, "thr.ff.succeeds-on-a-fault-free-network")
+            _oracle(sx, bool(ok), S[k], C[k], sts[k].status_block, start[k], length[k], f"thr2s{k}")
+
+
 def units(tier):
     q = tier == "quick"
     yield Unit("threaded.two-transfers", threaded_two_transfers, fresh_checks=True, max_depth=2000)
+    yield Unit("threaded.two-structures", threaded_two_structures, fresh_checks=True, max_depth=2000)
     ffmax = 200 if q else 390
     # fault-free twin, split by segment count through the length range
     step = 39
